@@ -51,9 +51,9 @@ def parse_addr(scev):
 
 
 class O2Unit:
-    def __init__(self, ctx, unit):
+    def __init__(self, ctx, unit, opt="O2"):
         cfg = getattr(ctx, "default_config", "native")
-        res, _asm, _db = build.build_ir(ctx.wd, config=cfg, opt="O2", only={unit}, tag="O2-%s-%s" % (cfg, unit.replace("/", "_")))
+        res, _asm, _db = build.build_ir(ctx.wd, config=cfg, opt=opt, only={unit}, tag="%s-%s-%s" % (opt, cfg, unit.replace("/", "_")))
         if unit not in res:
             raise AnalysisBroken("E9: unit %s not built" % unit)
         self.j = json.load(open(res[unit]))
